@@ -42,6 +42,8 @@ void SoPlexBase<R>::_optimize(volatile bool* interrupt)
 
    _solReal.invalidate();
    ++_optimizeCalls;
+   SOPLEX_VERIF_DRIVER_TRACE(1, _realLP->isScaled(), _scaler != nullptr, boolParam(SoPlexBase<R>::PERSISTENTSCALING), _hasBasis);
+   SOPLEX_VERIF_DRIVER_TRACE(4, _optimizeCalls, _unscaleCalls, _isRealLPLoaded, _isRealLPScaled);
 
    // start timing
    _statistics->solvingTime->start();
@@ -49,6 +51,7 @@ void SoPlexBase<R>::_optimize(volatile bool* interrupt)
    // unscale previously scaled problem, overwriting _realLP, if the scaler or persistent scaling has been switched off
    if(_realLP->isScaled() && (!_scaler || !boolParam(SoPlexBase<R>::PERSISTENTSCALING)))
    {
+      SOPLEX_VERIF_DRIVER_TRACE(2);
       _solver.unscaleLPandReloadBasis();
       _isRealLPScaled = false;
       ++_unscaleCalls;
@@ -69,6 +72,7 @@ void SoPlexBase<R>::_optimize(volatile bool* interrupt)
 #ifdef SOPLEX_DEBUG
          _checkScaling(origLP);
 #endif
+         SOPLEX_VERIF_DRIVER_TRACE(3, _isRealLPScaled);
       }
    }
 
@@ -77,6 +81,7 @@ void SoPlexBase<R>::_optimize(volatile bool* interrupt)
 
    // solve and store solution; if we have a starting basis, do not apply preprocessing; if we are solving from
    // scratch, apply preprocessing according to parameter settings
+   SOPLEX_VERIF_DRIVER_TRACE(5, _isRealLPLoaded, _isRealLPScaled, _scaler != nullptr, _hasBasis);
    if(!_hasBasis && realParam(SoPlexBase<R>::OBJLIMIT_LOWER) == -realParam(SoPlexBase<R>::INFTY)
          && realParam(SoPlexBase<R>::OBJLIMIT_UPPER) == realParam(SoPlexBase<R>::INFTY))
       _preprocessAndSolveReal(true, interrupt);
@@ -108,6 +113,7 @@ bool SoPlexBase<R>::_reapplyPersistentScaling() const
 template <class R>
 void SoPlexBase<R>::_evaluateSolutionReal(typename SPxSimplifier<R>::Result simplificationStatus)
 {
+   SOPLEX_VERIF_DRIVER_TRACE(20, simplificationStatus, _solver.status(), _isRealLPLoaded, _isRealLPScaled);
    // if the simplifier detected infeasibility or unboundedness we optimize again
    // just to get the proof (primal or dual ray)
    // todo get infeasibility proof from simplifier
@@ -123,6 +129,7 @@ void SoPlexBase<R>::_evaluateSolutionReal(typename SPxSimplifier<R>::Result simp
          SPX_MSG_INFO1(spxout, spxout <<
                        "simplifier detected infeasibility or unboundedness - solve again without simplifying" << std::endl;
                       )
+         SOPLEX_VERIF_DRIVER_TRACE(21);
          _preprocessAndSolveReal(false);
       }
       else
@@ -134,6 +141,7 @@ void SoPlexBase<R>::_evaluateSolutionReal(typename SPxSimplifier<R>::Result simp
          else
             _status = SPxSolverBase<R>::INForUNBD;
 
+         SOPLEX_VERIF_DRIVER_TRACE(22, _status);
          // load original LP to restore clean solver state
          _loadRealLP(false);
       }
@@ -141,6 +149,7 @@ void SoPlexBase<R>::_evaluateSolutionReal(typename SPxSimplifier<R>::Result simp
       return;
 
    case SPxSimplifier<R>::VANISHED:
+      SOPLEX_VERIF_DRIVER_TRACE(23);
       _status = SPxSolverBase<R>::OPTIMAL;
       _storeSolutionRealFromPresol();
       return;
@@ -158,6 +167,7 @@ void SoPlexBase<R>::_evaluateSolutionReal(typename SPxSimplifier<R>::Result simp
       // apply polishing on original problem
       if(_applyPolishing)
       {
+         SOPLEX_VERIF_DRIVER_TRACE(24);
          int polishing = intParam(SoPlexBase<R>::SOLUTION_POLISHING);
          setIntParam(SoPlexBase<R>::SOLUTION_POLISHING, polishing);
          _preprocessAndSolveReal(false);
@@ -173,6 +183,7 @@ void SoPlexBase<R>::_evaluateSolutionReal(typename SPxSimplifier<R>::Result simp
       if(!_isRealLPLoaded && boolParam(SoPlexBase<R>::ENSURERAY))
       {
          SPX_MSG_INFO1(spxout, spxout << " --- loading original problem" << std::endl;)
+         SOPLEX_VERIF_DRIVER_TRACE(25);
          _solver.changeObjOffset(realParam(SoPlexBase<R>::OBJ_OFFSET));
          // we cannot do more to remove violations
          _resolveWithoutPreprocessing(simplificationStatus);
@@ -192,6 +203,7 @@ void SoPlexBase<R>::_evaluateSolutionReal(typename SPxSimplifier<R>::Result simp
          SPX_MSG_INFO1(spxout, spxout <<
                        "encountered singularity - trying to solve again without simplifying" <<
                        std::endl;)
+         SOPLEX_VERIF_DRIVER_TRACE(26);
          _preprocessAndSolveReal(false);
          return;
       }
@@ -216,6 +228,7 @@ void SoPlexBase<R>::_evaluateSolutionReal(typename SPxSimplifier<R>::Result simp
       {
          SPX_MSG_INFO1(spxout, spxout << "encountered cycling - trying to solve again without simplifying" <<
                        std::endl;)
+         SOPLEX_VERIF_DRIVER_TRACE(27);
          // store and unsimplify sub-optimal solution and basis, may trigger re-solve
          _storeSolutionReal(true);
          return;
@@ -223,6 +236,8 @@ void SoPlexBase<R>::_evaluateSolutionReal(typename SPxSimplifier<R>::Result simp
 
       if(_solReal.isPrimalFeasible() || _solReal.isDualFeasible())
          _status = SPxSolverBase<R>::OPTIMAL_UNSCALED_VIOLATIONS;
+
+      SOPLEX_VERIF_DRIVER_TRACE(28, _status);
 
    // FALLTHROUGH
    case SPxSolverBase<R>::ABORT_TIME:
@@ -249,6 +264,7 @@ void SoPlexBase<R>::_evaluateSolutionReal(typename SPxSimplifier<R>::Result simp
 template <class R>
 void SoPlexBase<R>::_preprocessAndSolveReal(bool applySimplifier, volatile bool* interrupt)
 {
+   SOPLEX_VERIF_DRIVER_TRACE(10, applySimplifier, _isRealLPLoaded, _isRealLPScaled, _hasBasis);
    _solver.changeObjOffset(realParam(SoPlexBase<R>::OBJ_OFFSET));
    _statistics->preprocessingTime->start();
 
@@ -261,6 +277,7 @@ void SoPlexBase<R>::_preprocessAndSolveReal(bool applySimplifier, volatile bool*
 
    // create a copy of the LP when simplifying or when using internal scaling, i.e. w/o persistent scaling
    bool copyLP = (_simplifier != nullptr || (_scaler && !_isRealLPScaled));
+   SOPLEX_VERIF_DRIVER_TRACE(11, _simplifier != nullptr, _scaler != nullptr, copyLP, _solver.isTerminationValueEnabled());
 
    // set the objective limit if it was not explicitly disabled for this particular solving call
    if(_solver.isTerminationValueEnabled())
@@ -338,6 +355,7 @@ void SoPlexBase<R>::_preprocessAndSolveReal(bool applySimplifier, volatile bool*
       Real remainingTime = _solver.getMaxTime() - _solver.time();
       simplificationStatus = _simplifier->simplify(_solver, remainingTime, keepbounds,
                              _solver.random.getSeed());
+      SOPLEX_VERIF_DRIVER_TRACE(12, simplificationStatus);
       _solver.changeObjOffset(_simplifier->getObjoffset() + realParam(SoPlexBase<R>::OBJ_OFFSET));
       _solver.setScalingInfo(false);
       _applyPolishing = true;
@@ -356,6 +374,7 @@ void SoPlexBase<R>::_preprocessAndSolveReal(bool applySimplifier, volatile bool*
          _solver.invalidateBasis();
       }
 
+      SOPLEX_VERIF_DRIVER_TRACE(14, _solver.isScaled(), _isRealLPLoaded);
       _solveRealLPAndRecordStatistics(interrupt);
    }
 
@@ -374,6 +393,7 @@ void SoPlexBase<R>::_resolveWithoutPreprocessing(typename SPxSimplifier<R>::Resu
    assert(_status == SPxSolverBase<R>::INFEASIBLE || _status == SPxSolverBase<R>::INForUNBD
           || _status == SPxSolverBase<R>::UNBOUNDED);
 
+   SOPLEX_VERIF_DRIVER_TRACE(50, _simplifier != nullptr, _scaler != nullptr);
    // if simplifier was active, then we unsimplify to get the basis
    if(_simplifier)
    {
@@ -438,6 +458,7 @@ void SoPlexBase<R>::_resolveWithoutPreprocessing(typename SPxSimplifier<R>::Resu
       _hasBasis = true;
    }
 
+   SOPLEX_VERIF_DRIVER_TRACE(51, _hasBasis);
    // resolve the original problem
    _preprocessAndSolveReal(false);
    return;
@@ -463,6 +484,7 @@ void SoPlexBase<R>::_verifySolutionReal()
    (void) getRowViolation(rowviol, sumviol);
    (void) getDualViolation(dualviol, sumviol);
    (void) getRedCostViolation(redcostviol, sumviol);
+   SOPLEX_VERIF_DRIVER_TRACE(40, boundviol >= _solver.tolerances()->floatingPointFeastol(), rowviol >= _solver.tolerances()->floatingPointFeastol(), dualviol >= _solver.tolerances()->floatingPointOpttol(), redcostviol >= _solver.tolerances()->floatingPointOpttol());
 
    if(boundviol >= _solver.tolerances()->floatingPointFeastol()
          || rowviol >= _solver.tolerances()->floatingPointFeastol()
@@ -478,6 +500,8 @@ void SoPlexBase<R>::_verifySolutionReal()
       SPX_MSG_INFO1(spxout, spxout <<
                     " --- detected violations in original problem space -- solve again without presolving/scaling" <<
                     std::endl;)
+
+      SOPLEX_VERIF_DRIVER_TRACE(41, _isRealLPScaled);
 
       if(_isRealLPScaled)
       {
@@ -508,6 +532,7 @@ void SoPlexBase<R>::_verifyObjLimitReal()
    if(!getRedCostViolation(redcostviol, sumviol))
       dualfeasible = false;
 
+   SOPLEX_VERIF_DRIVER_TRACE(42, dualfeasible, dualviol >= _solver.tolerances()->floatingPointOpttol(), redcostviol >= _solver.tolerances()->floatingPointOpttol(), _isRealLPScaled);
    if(!dualfeasible || dualviol >= _solver.tolerances()->floatingPointOpttol()
          || redcostviol >= _solver.tolerances()->floatingPointOpttol())
    {
@@ -522,6 +547,7 @@ void SoPlexBase<R>::_verifyObjLimitReal()
       // if we already disabled simplifier and scaler, next disable the objective limit
       if(_scaler == nullptr && _simplifier == nullptr)
       {
+         SOPLEX_VERIF_DRIVER_TRACE(43);
          _solver.toggleTerminationValue(false);
       }
       else if(_isRealLPScaled)
@@ -539,6 +565,7 @@ void SoPlexBase<R>::_verifyObjLimitReal()
 template <class R>
 void SoPlexBase<R>::_storeSolutionReal(bool verify)
 {
+   SOPLEX_VERIF_DRIVER_TRACE(30, verify, _isRealLPLoaded, _isRealLPScaled, _solver.isScaled());
    // prepare storage for basis (enough to fit the original basis)
    _basisStatusRows.reSize(numRows());
    _basisStatusCols.reSize(numCols());
@@ -608,6 +635,7 @@ void SoPlexBase<R>::_storeSolutionReal(bool verify)
                                    && _solver.shift() < 10.0 * realParam(SoPlexBase<R>::EPSILON_ZERO)));
 
    _solReal._hasDualFarkas = (status() == SPxSolverBase<R>::INFEASIBLE && _isRealLPLoaded);
+   SOPLEX_VERIF_DRIVER_TRACE(31, _solReal._hasPrimalRay, _solReal._hasDualFarkas, _simplifier != nullptr, _realLP != &_solver);
 
    // get infeasibility or unboundedness proof if available
    if(_solReal._hasPrimalRay)
@@ -663,6 +691,7 @@ void SoPlexBase<R>::_storeSolutionReal(bool verify)
       {
          SPX_MSG_INFO1(spxout, spxout << "Caught exception <" << E.what() <<
                        "> during unsimplification. Resolving without simplifier and scaler.\n");
+         SOPLEX_VERIF_DRIVER_TRACE(32);
          _hasBasis = false;
          _preprocessAndSolveReal(false);
          return;
@@ -710,6 +739,7 @@ void SoPlexBase<R>::_storeSolutionReal(bool verify)
       _solver.setBasis(_basisStatusRows.get_const_ptr(), _basisStatusCols.get_const_ptr());
    }
 
+   SOPLEX_VERIF_DRIVER_TRACE(33, _isRealLPLoaded, _isRealLPScaled, _hasBasis);
    // unscale stored solution (removes persistent scaling)
    if(_isRealLPScaled)
       _unscaleSolutionReal(*_realLP, true);
@@ -732,6 +762,7 @@ void SoPlexBase<R>::_storeSolutionReal(bool verify)
 template <class R>
 void SoPlexBase<R>::_storeSolutionRealFromPresol()
 {
+   SOPLEX_VERIF_DRIVER_TRACE(60);
    assert(_simplifier);
    assert(_simplifier->result() == SPxSimplifier<R>::VANISHED);
 
@@ -765,6 +796,7 @@ void SoPlexBase<R>::_storeSolutionRealFromPresol()
    {
       SPX_MSG_INFO1(spxout, spxout << "Caught exception <" << E.what() <<
                     "> during unsimplification. Resolving without simplifier and scaler.\n");
+      SOPLEX_VERIF_DRIVER_TRACE(61);
       _preprocessAndSolveReal(false);
       return;
    }
@@ -806,6 +838,7 @@ void SoPlexBase<R>::_storeSolutionRealFromPresol()
 template <class R>
 void SoPlexBase<R>::_loadRealLP(bool initBasis)
 {
+   SOPLEX_VERIF_DRIVER_TRACE(35, initBasis);
    _solver.loadLP(*_realLP, initBasis);
    _isRealLPLoaded = true;
    _realLP->~SPxLPBase<R>();
@@ -824,6 +857,7 @@ void SoPlexBase<R>::_unscaleSolutionReal(SPxLPBase<R>& LP, bool persistent)
 {
    SPX_MSG_INFO1(spxout, spxout << " --- unscaling " << (persistent ? "external" : "internal") <<
                  " solution" << std::endl;)
+   SOPLEX_VERIF_DRIVER_TRACE(34, persistent);
    assert(_scaler);
    assert(!persistent || (boolParam(SoPlexBase<R>::PERSISTENTSCALING) && _isRealLPScaled));
    _scaler->unscalePrimal(LP, _solReal._primal);
